@@ -116,6 +116,17 @@ pub fn cases(prop: &str, tier: Tier, seed: u64) -> Vec<CaseDesc> {
             }
             out.extend(with_scenario(base, "cfg"));
         }
+        "C11" => {
+            // cfg 90 = defaults + preserve_code_transform
+            out.extend(with_scenario(disk_corpus(false), "rt:emit,gc,probe;cfg=90"));
+            for (p, nq, nt) in [("full", 1500, 60_000), ("gcgraph", 800, 30_000), ("tiny", 500, 20_000)] {
+                let specs = g(p, nq, nt);
+                for (i, s) in specs.into_iter().enumerate() {
+                    let scn = if i % 2 == 0 { "rt:emit,gc,probe;cfg=90" } else { "rt:emit,probe,ins;cfg=90" };
+                    out.push(CaseDesc { spec: s, scenario: scn.to_string() });
+                }
+            }
+        }
         "C13" => {
             out.extend(with_scenario(disk_corpus(false), "rt:emit,gc"));
             out.extend(with_scenario(g("names", 4000, 150_000), "rt:emit,gc"));
